@@ -64,18 +64,16 @@ class Spheroid(CenteredScatterer):
         inverserotate = np.linalg.inv(rotation_matrix(*self.rotation))
         def spheroidbody(point):
             threeaxes = np.array([self.r[0], self.r[0], self.r[1]])
-            subdivisions = point.shape #this gives number of subdivisions in x, y, z, 3
+            subdivisions = point.shape #number of subdivisions in x, y, z, 3 (or N, 3)
             #reshape into a list of coordinates, NxNyNz x 3 array
             point = point.reshape(-1, point.shape[-1]) 
             rotatedpoints = np.transpose(np.dot(
                             inverserotate, np.transpose(point))) #rotates points
-            imposeshape = np.tile(threeaxes,(subdivisions[0] * subdivisions[1]
-                                * subdivisions[2],1)) #normalise by each axis
+            imposeshape = np.tile(threeaxes,(len(point),1)) #normalise by each axis
             flat_indicator = ((rotatedpoints / imposeshape)
                             ** 2).sum(axis=1) < 1 #gives indicators in a list
             #reshape indicators to a volume
-            unflatten = flat_indicator.reshape(subdivisions[0], subdivisions[1],
-                                               subdivisions[2]) 
+            unflatten = flat_indicator.reshape(subdivisions[:-1])
             return unflatten
         r = max(self.r)
         return Indicators([spheroidbody], [[-r, r], [-r, r], [-r, r]])
